@@ -492,8 +492,10 @@ def replay(path):
     pickles = [build_pickle(g) for g in PICKLE_GLOBALS]
     flags = verdicts(pickles)
     r = full_oracle(case["history"], pickles, flags)
-    if r and not (r[2] and any(k.get("signature") == r[2] and k.get("property") == "C12"
-                               for k in __import__("harness.common", fromlist=["x"]).load_known_findings())):
+    from harness.common import load_known_findings
+    known = {k.get("signature") for k in load_known_findings()
+             if k.get("property") == "C12" and k.get("status", "known") == "known"}
+    if r and r[2] not in known:
         print(f"VIOLATION property=C12 replay={path}")
         print(f"step {r[1]}: {r[0]}")
         return 1
